@@ -1,13 +1,22 @@
 //! C19: the real `ChaosLayer` (built through its public builder) over the scripted inner service.
 //!
-//! header: `chaos seed=<u64> [erate=<spec>] lrate=<spec> min_us=<µs> max_us=<µs> [order=<0|1>] [handles=<k>]`
+//! header: `chaos seed=<u64> [erate=<spec>] lrate=<spec> min_us=<µs> max_us=<µs> [order=<0|1|2|3>] [entry=<layer|new|default>]
+//!          [name=<s>|-] [handles=<k>] [ready=<script>]`
 //!   `min_us` / `max_us`: the bounds given to the builder, any `Duration` in whole microseconds — from 0 to hours;
-//!   the layer compares them in whole milliseconds (`Duration::as_millis`, truncating), and so do mirror and model
+//!   the layer compares them in whole milliseconds (`Duration::as_millis`, truncating), and so does the model
 //!   rate spec: `T<n>`   = n / 2^53 (n ≤ 2^53; every such value is an exact f64)
 //!              `b<bits>` = the f64 with these bits (clamped to [0,1] like the builder does)
 //!              `d<i>[+1|-1]` = the i-th f64 of `StdRng::seed_from_u64(seed)` (± one step of 2^-53):
 //!                              puts the rate exactly on / next to a roll the layer will see
-//!   no `erate` key = latency-only layer (`NoErrorInjection`); `order=1` = `.error_fn().error_rate()`
+//!   no `erate` key = latency-only layer (`NoErrorInjection`).
+//!   `order`: the builder path to the error-injecting layer. 0 (default): everything configured on the first builder
+//!   type, then `.error_rate(r).error_fn(f)`; 1: …, then `.error_fn(f).error_rate(r)`; 2: `.error_rate(r)` FIRST and
+//!   everything else (`name`, listeners, `latency_rate`, `min_latency`, `max_latency`, `seed`) on the second builder
+//!   type `ChaosConfigBuilderWithRate`, then `.error_fn(f)`; 3: name and listeners on the first builder type,
+//!   `.error_rate(r)`, rates / bounds / seed on the second, `.error_fn(f)`. All four must give the same layer.
+//!   `entry`: where the builder comes from — `layer` (default) `ChaosLayer::builder()`, `new` `ChaosConfigBuilder::new()`,
+//!   `default` `ChaosConfigBuilder::default()`.
+//!   `name=<s>`: `.name(s)` (default `verif`); `name=-`: `.name(..)` is not called (the layer keeps `<unnamed>`).
 //!   `handles=k`: which handle of the service serves a request. 0 (default) = a fresh clone of the
 //!   pristine service per request; k >= 1 = k clones taken up front, request c goes to handle c mod k
 //!   `ready=<script>`: the wrapped service of instance A is the STRICT scripted service (`Inner::strict`): readiness is
@@ -15,6 +24,16 @@
 //!   any instance) are answered from the script ('r' ready, 'p' pending, 'e' error; exhausted: ready), and every
 //!   `inner_call` line says whether the instance called had reported ready since its last call (`ready=1|0`).
 //!   Without the key: the always-ready service that does not log readiness (as before).
+//!
+//! `arrive c … [svc=<k>] [lclone=1]`: SEVERAL SERVICES FROM ONE LAYER VALUE. Instance A is one `ChaosLayer` value, built
+//! once; service k is made from it lazily, at the first arrival that names it (`layer.layer(inner)`; with `lclone=1` on
+//! that arrival from a clone of the layer taken at that moment, i.e. after the earlier services were built — the clone
+//! is kept alive with the other handles). Default `svc=0`. Everything that is per service in the crate — the seeded
+//! stream above all — must not be shared between the services: each service k has its own twin (below), built from a
+//! layer of ITS OWN (a second, independent `builder()…build()`), which is given exactly the requests made on service k,
+//! in the order of their first polls. `handles=k` / `via=` apply per service (each service has its own pristine handle
+//! and its own k kept clones). The wrapped services of all services of instance A are clones of one scripted inner
+//! service (one log, one serial counter, one readiness script).
 //!
 //! `arrive c … [via=<mode>] [tvia=<mode>]`: how the caller obtains the handle it calls — all legitimate Tower usage,
 //! all must behave alike (the modes of `mw_bulkhead.rs`). The "template" is the handle the request is routed to
@@ -30,31 +49,43 @@
 //! layer=<answers> inner=<answers>` (the layer forwards readiness). A request refused by `poll_ready` (pending or
 //! error) is not made: `result c notready`.
 //!
-//! No hook into the repository: the adapter holds a mirror `StdRng::seed_from_u64(seed)`. In the
-//! first poll of a call future it draws speculatively on clones of the mirror, in the order the
-//! layer draws (f64, f64, range), and reports the draws to the model (`@r1 @r2 @g1 @g2`, exact
-//! integers). The branch the layer really took is classified through the layer's own public
-//! event callbacks, and the mirror is advanced by the draws that branch consumes. The log
-//! contains observables only: inner calls (with their virtual instants) and results.
+//! No hook into the repository, and NO MIRROR of the layer's generator: the property says the decisions are a
+//! deterministic FUNCTION of the seed and the order of requests, not which function, so nothing here (and nothing in the
+//! Lean model) pins the draw scheme. The decision the layer takes for a request is OBSERVED through the layer's own public
+//! event callbacks (`on_error_injected` / `on_latency_injected(d)` / `on_passed_through`) while the request is polled
+//! for the first time, and handed to the model as an observed choice on that `poll` line: `@dec=e` | `@dec=l<ms>` |
+//! `@dec=p` (together with the exact thresholds of the configured rates, `@eT @lT`). The model checks the decision
+//! against the boundary clauses (rate 0 => never, rate 1 => always, latency within the bounds) and predicts what the
+//! request must then do. The log contains observables only: inner calls (with their virtual instants) and results.
 //!
-//! Determinism is also checked directly, twice, without the model:
-//!  * twin: every request is given to a second, equally seeded layer instance (over a silent inner
-//!    service) polled in the same step, but driven differently: the twin is ONE handle that is never
-//!    cloned (unless `tvia=` asks for another caller mode), and its `call()` happens only at the first poll (instance A: clones, `call()` at
-//!    `arrive`). Same seed + same order of requests must give the same decisions whichever clone
-//!    serves a request and whenever the future was created; any difference in behaviour is logged as
-//!    `twin-mismatch`, and the decisions the two instances report for a request (`#obs` / `#obsb`) are compared.
-//!  * stream: a free-running oracle generator `StdRng::seed_from_u64(seed)`, never synchronised with
-//!    the layer, yields "decision i of the seed's stream" for the i-th first poll (`#pred c <d>`); what
-//!    the layer really decided for that request is taken from its event callbacks (`#obs c <d>`).
+//! Determinism is decided on this side, without the model, by running the same seed and the same order of requests
+//! twice inside the case:
+//!  * twin: every request made on service k of instance A is also given to the twin of service k — a second service
+//!    built independently (its own `builder()…build()`, same configuration and seed, over a silent inner service) —
+//!    polled in the same step, but driven differently: the twin is ONE handle that is never cloned (unless `tvia=` asks
+//!    for another caller mode), and its `call()` happens only at the first poll (instance A: clones, `call()` at
+//!    `arrive`). Same seed + same order of requests must give the same decisions whichever clone serves a request,
+//!    whenever the future was created, and whatever the sibling services of the layer value have served; any
+//!    difference in behaviour is logged as `twin-mismatch`, and the decisions the two report for a request (`#obs` /
+//!    `#obsb`) are compared.
+//!  * services: the services built from the one layer value are equally seeded, so their decision sequences (each in
+//!    the order of its own first polls, `#svc c k`) must agree on their common prefix.
+//!  * witness: when the case begins, yet another independently built, equally configured and seeded service takes its
+//!    first `WITNESS_N` decisions one after the other at instant 0 — other payloads, every request dropped right after
+//!    its first poll, nothing else going on (`#wit i <d>`). The i-th request to be first polled on ANY service of
+//!    instance A — whenever that happens, whatever its payload, whatever happened to the requests before it, whichever
+//!    handles are still alive — must get that very decision: the reference stream is the implementation's own.
+//!  * reference (informational only, never a failure): a free-running `StdRng::seed_from_u64(seed)` per service and the
+//!    draw scheme of the code as it was when this was written give `#ref c <d>`; whether the layer still uses that
+//!    scheme is recorded as a transition tag, nothing more.
 //!
 //! `manual dropsvc`: the caller drops EVERY handle it holds — of instance A the pristine service, the k kept clones
 //! and the layer, of the twin its only handle and its layer — while call futures may be alive, polled or not yet
 //! polled (`let f = svc.call(r); drop(svc); f.await`, `svc.oneshot(r)`). Requests that arrived before still get
 //! their decision at their first poll, in first-poll order, from the seed's stream: instance A made their `call()`
 //! at `arrive`; the twin, whose `call()` is otherwise made at the first poll, makes the `call()`s of the requests
-//! not yet polled (in arrival order) just before it lets go of its handle. Mirror, oracle and callbacks live in
-//! what the futures hold and keep working. Later `arrive`s are answered `noop` (nothing left to make a call on).
+//! not yet polled (in arrival order) just before it lets go of its handle (each twin of each service). The callbacks
+//! live in what the futures hold and keep working. Later `arrive`s are answered `noop` (nothing left to make a call on).
 //!
 //! `manual stress threads=<N> calls=<K>`: real-OS-thread stress search (NOT a proof) for the part no
 //! single-threaded schedule can reach: N threads, each with a clone of one freshly built, equally
@@ -64,7 +95,6 @@ use crate::world::*;
 use futures::future::BoxFuture;
 use rand::rngs::StdRng;
 use rand::{Rng, SeedableRng};
-use std::any::Any;
 use std::cell::{Cell, RefCell};
 use std::collections::{BTreeMap, HashMap, VecDeque};
 use std::future::Future;
@@ -75,11 +105,20 @@ use std::sync::{Arc, Mutex};
 use std::task::{Context, Poll, Waker};
 use std::time::Duration;
 use tower::{Layer, Service};
-use tower_resilience_chaos::ChaosLayer;
+use tower_resilience_chaos::{ChaosConfigBuilder, ChaosLayer};
 
 const P53: u64 = 1 << 53;
 type Fut = BoxFuture<'static, Result<Resp, IErr>>;
-type MakeFut = Box<dyn FnMut(Req, Via) -> Option<Fut>>;
+type MakeFut = Box<dyn FnMut(Req, Via, Sel) -> Option<Fut>>;
+
+/// which service of the layer value a request is made on; `lclone`: if the service does not exist yet it is made
+/// from a clone of the layer (taken now) instead of from the layer value itself
+#[derive(Clone, Copy, Debug)]
+struct Sel {
+    svc: usize,
+    lclone: bool,
+}
+const SVC0: Sel = Sel { svc: 0, lclone: false };
 
 /// how the caller obtains the handle it calls (see the module documentation)
 #[derive(Clone, Copy, Debug, PartialEq, Eq)]
@@ -189,6 +228,10 @@ struct Params {
     max: Duration,
     order: u64,
     handles: usize,
+    /// where the builder comes from: 0 `ChaosLayer::builder()`, 1 `ChaosConfigBuilder::new()`, 2 `::default()`
+    entry: u8,
+    /// `.name(..)`; `None`: not called
+    name: Option<String>,
 }
 impl Params {
     fn min_ms(&self) -> u64 {
@@ -222,10 +265,10 @@ impl std::fmt::Display for Dec {
     }
 }
 
-/// The property's "function of the seed and the order of requests", stated once more on the harness
-/// side for the oracle generator: the next decision of the stream of `rng` (exact integer comparison
-/// of 53-bit numerators with the thresholds; draws in the documented order roll, roll, range). Advances
-/// `rng` by exactly the draws of that decision.
+/// The draw scheme of `Chaos::call` as it was when this harness was written (one admissible "function of the seed
+/// and the order of requests" among many): the next decision of the stream of `rng` (exact integer comparison of
+/// 53-bit numerators with the thresholds; draws in the order roll, roll, range). Advances `rng` by exactly the draws
+/// of that decision. REFERENCE ONLY: used for the informational `#ref` lines, never for a verdict.
 fn decide_next(rng: &mut StdRng, et: u64, lt: u64, lo: u64, hi: u64) -> Dec {
     let mut e_roll = P53;
     if et > 0 {
@@ -301,33 +344,52 @@ fn inject(req: &Req) -> IErr {
     IErr { kind: 99, v: req.tag }
 }
 
-/// what is done with the service once it is built (its type depends on the builder path taken)
-trait Consumer<R> {
-    /// `layer`: the layer the service was made with; kept alive as long as the handles are (a caller that keeps
-    /// its layer around, e.g. to wrap further services), dropped with them
-    fn take<Sv>(self, svc: Sv, layer: Box<dyn Any>) -> R
+/// what is done with the layer once it is built (its type depends on the builder path taken); `S` is the wrapped
+/// service the layer will be applied to
+trait Consumer<S, R> {
+    fn take<L>(self, layer: L) -> R
     where
-        Sv: Service<Req, Response = Resp, Error = IErr, Future = Fut> + Clone + Send + 'static;
+        L: Layer<S> + Clone + 'static,
+        L::Service: Service<Req, Response = Resp, Error = IErr, Future = Fut> + Clone + Send + 'static;
 }
 
-/// The caller of one instance: `k` = 0: the template is the pristine service; k >= 1: k clones taken up front,
-/// the template of request c is handle c mod k. How the handle that is called is obtained from the template: `Via`.
-/// `trace`: note the layer's readiness answers (`RDY_LAYER`; instance A).
-struct Handles {
+/// The caller of one instance = one layer value and the services made from it. Service `sel.svc` is made lazily
+/// (`layer.layer(inner(svc))`, or from a clone of the layer: `sel.lclone`). Per service: `k` = 0: the template is the
+/// pristine service; k >= 1: k clones taken up front, the template of request c is handle c mod k. How the handle that
+/// is called is obtained from the template: `Via`. `trace`: note the layer's readiness answers (`RDY_LAYER`; instance
+/// A). Dropping the closure drops the layer, its kept clones and every handle of every service.
+struct Handles<S> {
     k: usize,
     trace: bool,
+    inner: Box<dyn FnMut(usize) -> S>,
 }
-impl Consumer<MakeFut> for Handles {
-    fn take<Sv>(self, mut svc: Sv, layer: Box<dyn Any>) -> MakeFut
+impl<S: 'static> Consumer<S, MakeFut> for Handles<S> {
+    fn take<L>(self, layer: L) -> MakeFut
     where
-        Sv: Service<Req, Response = Resp, Error = IErr, Future = Fut> + Clone + Send + 'static,
+        L: Layer<S> + Clone + 'static,
+        L::Service: Service<Req, Response = Resp, Error = IErr, Future = Fut> + Clone + Send + 'static,
     {
-        let (k, trace) = (self.k, self.trace);
-        let mut hs: Vec<Sv> = (0..k).map(|_| svc.clone()).collect();
-        Box::new(move |req, via| {
-            let _keep = &layer;
-            let t: &mut Sv = if k == 0 { &mut svc } else { &mut hs[req.c % k] };
-            let ready = |s: &mut Sv| {
+        let (k, trace, mut inner) = (self.k, self.trace, self.inner);
+        let mut svcs: BTreeMap<usize, (L::Service, Vec<L::Service>)> = BTreeMap::new();
+        let mut layer_clones: Vec<L> = Vec::new();
+        Box::new(move |req, via, sel| {
+            if !svcs.contains_key(&sel.svc) {
+                let i = inner(sel.svc);
+                let svc = if sel.lclone {
+                    // a clone of the layer taken after the earlier services were built; the caller keeps it
+                    let l2 = layer.clone();
+                    let s = l2.layer(i);
+                    layer_clones.push(l2);
+                    s
+                } else {
+                    layer.layer(i)
+                };
+                let hs: Vec<L::Service> = (0..k).map(|_| svc.clone()).collect();
+                svcs.insert(sel.svc, (svc, hs));
+            }
+            let (svc, hs) = svcs.get_mut(&sel.svc).unwrap();
+            let t: &mut L::Service = if k == 0 { svc } else { &mut hs[req.c % k] };
+            let ready = |s: &mut L::Service| {
                 let r = poll_ready_once(s);
                 if trace {
                     RDY_LAYER.with(|x| x.borrow_mut().push(rdy_char(&r)));
@@ -376,36 +438,72 @@ struct Hooks {
     l: HookD,
     p: Hook0,
 }
-/// Build one layer instance through the public builder and hand the service to `k`.
-fn build<S, C, R>(inner: S, p: &Params, h: Hooks, k: C) -> R
+/// Build one layer value through the public builder (path: `p.entry`, `p.order`, `p.name`) and hand it to `k`.
+fn build<S, C, R>(p: &Params, h: Hooks, k: C) -> R
 where
     S: Service<Req, Response = Resp, Error = IErr> + Clone + Send + 'static,
     S::Future: Send + 'static,
-    C: Consumer<R>,
+    C: Consumer<S, R>,
 {
     let Hooks { e, l, p: pt } = h;
-    let b = ChaosLayer::builder()
-        .name("verif")
-        .on_error_injected(move || e())
-        .on_latency_injected(move |d| l(d))
-        .on_passed_through(move || pt())
-        .latency_rate(p.lrate)
-        .min_latency(p.min)
-        .max_latency(p.max)
-        .seed(p.seed);
+    let b0 = match p.entry {
+        1 => ChaosConfigBuilder::new(),
+        2 => ChaosConfigBuilder::default(),
+        _ => ChaosLayer::builder(),
+    };
     let f: fn(&Req) -> IErr = inject;
-    match p.erate {
-        None => {
-            let l = b.build();
-            k.take(l.layer(inner), Box::new(l))
+    match (p.erate, p.order) {
+        (Some(r), 2) => {
+            // the error rate first: everything else is configured on the second builder type
+            let mut w = b0.error_rate(r);
+            if let Some(n) = &p.name {
+                w = w.name(n.clone());
+            }
+            let w = w
+                .on_error_injected(move || e())
+                .on_latency_injected(move |d| l(d))
+                .on_passed_through(move || pt())
+                .latency_rate(p.lrate)
+                .min_latency(p.min)
+                .max_latency(p.max)
+                .seed(p.seed);
+            k.take(w.error_fn(f).build())
         }
-        Some(r) if p.order == 0 => {
-            let l = b.error_rate(r).error_fn(f).build();
-            k.take(l.layer(inner), Box::new(l))
+        (Some(r), 3) => {
+            // name and listeners on the first builder type, rates / bounds / seed on the second
+            let mut b = b0;
+            if let Some(n) = &p.name {
+                b = b.name(n.clone());
+            }
+            let w = b
+                .on_error_injected(move || e())
+                .on_latency_injected(move |d| l(d))
+                .on_passed_through(move || pt())
+                .error_rate(r)
+                .latency_rate(p.lrate)
+                .min_latency(p.min)
+                .max_latency(p.max)
+                .seed(p.seed);
+            k.take(w.error_fn(f).build())
         }
-        Some(r) => {
-            let l = b.error_fn(f).error_rate(r).build();
-            k.take(l.layer(inner), Box::new(l))
+        (erate, order) => {
+            let mut b = b0;
+            if let Some(n) = &p.name {
+                b = b.name(n.clone());
+            }
+            let b = b
+                .on_error_injected(move || e())
+                .on_latency_injected(move |d| l(d))
+                .on_passed_through(move || pt())
+                .latency_rate(p.lrate)
+                .min_latency(p.min)
+                .max_latency(p.max)
+                .seed(p.seed);
+            match erate {
+                None => k.take(b.build()),
+                Some(r) if order == 0 => k.take(b.error_rate(r).error_fn(f).build()),
+                Some(r) => k.take(b.error_fn(f).error_rate(r).build()),
+            }
         }
     }
 }
@@ -413,84 +511,119 @@ where
 /// the request whose future is being polled (instance A): the layer's callbacks carry no request
 type Cur = Arc<Mutex<Option<usize>>>;
 
-fn note(what: &str, cur: &Cur, d: Dec) {
+fn note(what: &str, cur: &Cur, d: Dec) -> bool {
     if let Some(c) = *cur.lock().unwrap() {
         log_raw(format!("{} {} {}", what, c, d));
+        return true;
     }
+    false
 }
 
-/// Hooks of the twin: only the decision it reports for the request being polled (`#obsb`).
+/// Hooks of a twin: only the decision it reports for the request being polled (`#obsb`).
 fn hooks_b(cur: Cur) -> Hooks {
     let (c1, c2, c3) = (cur.clone(), cur.clone(), cur);
     Hooks {
-        e: Box::new(move || note("#obsb", &c1, Dec::Error)),
-        l: Box::new(move |d| note("#obsb", &c2, Dec::Lat(d.as_millis() as u64))),
-        p: Box::new(move || note("#obsb", &c3, Dec::Pass)),
+        e: Box::new(move || {
+            note("#obsb", &c1, Dec::Error);
+        }),
+        l: Box::new(move |d| {
+            note("#obsb", &c2, Dec::Lat(d.as_millis() as u64));
+        }),
+        p: Box::new(move || {
+            note("#obsb", &c3, Dec::Pass);
+        }),
     }
 }
 
-/// Hooks of instance A: the mirror is advanced from the layer's event callbacks by exactly the draws
-/// the reported branch consumes; the reported branch is also noted as the observed decision (`#obs`).
-fn hooks_a(p: &Params, mirror: Arc<Mutex<StdRng>>, cur: Cur) -> Hooks {
-    let has_e = p.erate.map(|r| r > 0.0).unwrap_or(false);
-    let has_l = p.lrate > 0.0;
-    let (lo, hi) = (p.min_ms(), p.max_ms());
-    let (m1, m2, m3) = (mirror.clone(), mirror.clone(), mirror);
+/// Hooks of the witness: the decisions in the order they are reported.
+fn hooks_w(decs: Arc<Mutex<Vec<Dec>>>) -> Hooks {
+    let (d1, d2, d3) = (decs.clone(), decs.clone(), decs);
+    Hooks {
+        e: Box::new(move || d1.lock().unwrap().push(Dec::Error)),
+        l: Box::new(move |d| d2.lock().unwrap().push(Dec::Lat(d.as_millis() as u64))),
+        p: Box::new(move || d3.lock().unwrap().push(Dec::Pass)),
+    }
+}
+
+/// how many decisions the witness service takes at the beginning of a case
+const WITNESS_N: usize = 32;
+
+/// The witness: a service built independently (same builder path, configuration and seed, over the silent inner
+/// service) serves `WITNESS_N` requests one after the other, right now: ready, call, first poll, drop. What it reports
+/// is "decision i of this seed" as the implementation itself defines it — with payloads, instants, outcomes and
+/// cancellations that have nothing to do with those of the case (`#wit i <d>`; `#wit i none|many` if the layer
+/// reported no / more than one decision for a request).
+fn witness(p: &Params) {
+    let decs: Arc<Mutex<Vec<Dec>>> = Default::default();
+    let calls: Calls = Default::default();
+    let mut mk: MakeFut = build(
+        p,
+        hooks_w(decs.clone()),
+        Handles { k: 0, trace: false, inner: Box::new(move |_svc| Tap { inner: Quiet { ready: false }, calls: calls.clone(), trace: false }) },
+    );
+    for i in 0..WITNESS_N {
+        let before = decs.lock().unwrap().len();
+        let req = Req { c: 1_000_000 + i, key: 0, tag: 7_000_000 + i as u64, plan: Default::default() };
+        if let Some(mut f) = mk(req, Via::Template, SVC0) {
+            let _ = noop_cx_poll(&mut f);
+            drop(f);
+        }
+        let d = decs.lock().unwrap();
+        match &d[before..] {
+            [one] => log_raw(format!("#wit {} {}", i, one)),
+            [] => log_raw(format!("#wit {} none", i)),
+            _ => log_raw(format!("#wit {} many", i)),
+        }
+    }
+}
+
+/// Hooks of instance A: the branch the layer reports through its event callbacks while a request is being polled is
+/// the observed decision of that request: noted (`#obs`) and handed to the model as an observed choice of the
+/// operation in progress (`@dec=e|l<ms>|p`).
+fn hooks_a(cur: Cur) -> Hooks {
     let (c1, c2, c3) = (cur.clone(), cur.clone(), cur);
     Hooks {
         e: Box::new(move || {
-            let _: f64 = m1.lock().unwrap().random();
-            note("#obs", &c1, Dec::Error);
+            if note("#obs", &c1, Dec::Error) {
+                obs("dec", "e");
+            }
         }),
         l: Box::new(move |d| {
-            {
-                let mut m = m2.lock().unwrap();
-                if has_e {
-                    let _: f64 = m.random();
-                }
-                let _: f64 = m.random();
-                if hi > lo {
-                    let _: u64 = m.random_range(lo..=hi);
-                }
+            if note("#obs", &c2, Dec::Lat(d.as_millis() as u64)) {
+                obs("dec", format!("l{}", d.as_millis()));
             }
-            note("#obs", &c2, Dec::Lat(d.as_millis() as u64));
         }),
         p: Box::new(move || {
-            {
-                let mut m = m3.lock().unwrap();
-                if has_e {
-                    let _: f64 = m.random();
-                }
-                if has_l {
-                    let _: f64 = m.random();
-                }
+            if note("#obs", &c3, Dec::Pass) {
+                obs("dec", "p");
             }
-            note("#obs", &c3, Dec::Pass);
         }),
     }
 }
 
-/// The twin instance as its caller sees it: the one handle (until `manual dropsvc`), the requests that have arrived
-/// and whose `call()` is still to be made (at their first poll), and the futures of the `call()`s made when the
-/// handle was about to be dropped.
+/// The twins as their caller sees them: per service of instance A one independently built layer with ONE handle
+/// (until `manual dropsvc`), the requests that have arrived and whose `call()` is still to be made (at their first
+/// poll), and the futures of the `call()`s made when the handles were about to be dropped.
 struct TwinSide {
-    /// the twin's only handle (and its layer); `None` once every handle has been dropped
-    make: Option<MakeFut>,
-    /// arrived, not yet first polled, in arrival order
-    waiting: Vec<(usize, Req, Via)>,
+    /// service k -> the twin's layer and only handle; emptied when every handle is dropped
+    make: BTreeMap<usize, MakeFut>,
+    /// builds another twin (a layer of its own, through the same builder path); `None` once every handle has been dropped
+    new_twin: Option<Box<dyn FnMut() -> MakeFut>>,
+    /// arrived, not yet first polled, in arrival order: (request, its service, the twin's caller mode)
+    waiting: Vec<(usize, usize, Req, Via)>,
     /// `call()` made at `manual dropsvc` for a request that had not been polled yet
     made: HashMap<usize, Option<Fut>>,
 }
 
 pub struct Adapter {
     p: Params,
-    /// every handle of instance A (pristine service, kept clones, layer); `None` once dropped
+    /// the layer value of instance A and every handle of every service made from it; `None` once dropped
     make_a: Option<MakeFut>,
     twin: Rc<RefCell<TwinSide>>,
     a_calls: Calls,
     b_calls: Calls,
-    mirror: Arc<Mutex<StdRng>>,
-    oracle: Rc<RefCell<StdRng>>,
+    /// reference only: a free-running generator per service (see `decide_next`)
+    oracle: Rc<RefCell<BTreeMap<usize, StdRng>>>,
     cur: Cur,
     cur_b: Cur,
 }
@@ -506,32 +639,45 @@ impl Adapter {
             max: Duration::from_micros(kv.u64("max_us", 0)),
             order: kv.u64("order", 0),
             handles: kv.u64("handles", 0).min(64) as usize,
+            entry: match kv.get("entry") {
+                Some("new") => 1,
+                Some("default") => 2,
+                _ => 0,
+            },
+            name: match kv.get("name") {
+                Some("-") => None,
+                Some(n) => Some(n.to_string()),
+                None => Some("verif".to_string()),
+            },
         };
-        let mirror = Arc::new(Mutex::new(StdRng::seed_from_u64(seed)));
-        let oracle = Rc::new(RefCell::new(StdRng::seed_from_u64(seed)));
+        witness(&p);
         let cur: Cur = Default::default();
         let cur_b: Cur = Default::default();
         let a_calls: Calls = Default::default();
         let b_calls: Calls = Default::default();
-        // `ready=<script>`: the strict scripted service (readiness per instance, answers from the script)
-        let inner = match kv.get("ready") {
+        // `ready=<script>`: the strict scripted service (readiness per instance, answers from the script); the wrapped
+        // services of the services of instance A are clones of it
+        let base = match kv.get("ready") {
             Some(script) => Inner::strict(script),
             None => Inner::new(),
         };
+        let calls = a_calls.clone();
         let make_a = build(
-            Tap { inner, calls: a_calls.clone(), trace: true },
             &p,
-            hooks_a(&p, mirror.clone(), cur.clone()),
-            Handles { k: p.handles, trace: true },
+            hooks_a(cur.clone()),
+            Handles { k: p.handles, trace: true, inner: Box::new(move |_svc| Tap { inner: base.clone(), calls: calls.clone(), trace: true }) },
         );
-        let make_b = build(
-            Tap { inner: Quiet { ready: false }, calls: b_calls.clone(), trace: false },
-            &p,
-            hooks_b(cur_b.clone()),
-            Handles { k: 0, trace: false },
-        );
-        let twin = Rc::new(RefCell::new(TwinSide { make: Some(make_b), waiting: Vec::new(), made: HashMap::new() }));
-        Adapter { p, make_a: Some(make_a), twin, a_calls, b_calls, mirror, oracle, cur, cur_b }
+        let (p2, calls_b, cb) = (p.clone(), b_calls.clone(), cur_b.clone());
+        let new_twin: Box<dyn FnMut() -> MakeFut> = Box::new(move || {
+            let calls = calls_b.clone();
+            build(
+                &p2,
+                hooks_b(cb.clone()),
+                Handles { k: 0, trace: false, inner: Box::new(move |_svc| Tap { inner: Quiet { ready: false }, calls: calls.clone(), trace: false }) },
+            )
+        });
+        let twin = Rc::new(RefCell::new(TwinSide { make: BTreeMap::new(), new_twin: Some(new_twin), waiting: Vec::new(), made: HashMap::new() }));
+        Adapter { p, make_a: Some(make_a), twin, a_calls, b_calls, oracle: Default::default(), cur, cur_b }
     }
 }
 
@@ -542,12 +688,13 @@ pub fn render(r: Result<Resp, IErr>) -> String {
     }
 }
 
-/// the call future of instance A together with its twin of instance B
+/// the call future of instance A together with its twin
 struct Pair {
     c: usize,
+    svc: usize,
     fa: Fut,
-    /// the twin's request waits in `twin.waiting`: its `call()` is made at the first poll, on the twin's only
-    /// handle — or, if every handle is dropped before that, just before the handle goes (`twin.made`)
+    /// the twin's request waits in `twin.waiting`: its `call()` is made at the first poll, on the only handle of the
+    /// twin of its service — or, if every handle is dropped before that, just before the handle goes (`twin.made`)
     twin: Rc<RefCell<TwinSide>>,
     fb: Option<Fut>,
     b_res: Option<Result<Resp, IErr>>,
@@ -555,8 +702,8 @@ struct Pair {
     reported: bool,
     a_calls: Calls,
     b_calls: Calls,
-    mirror: Arc<Mutex<StdRng>>,
-    oracle: Rc<RefCell<StdRng>>,
+    oracle: Rc<RefCell<BTreeMap<usize, StdRng>>>,
+    seed: u64,
     cur: Cur,
     cur_b: Cur,
     lo: u64,
@@ -579,33 +726,28 @@ impl Future for Pair {
         let this = &mut *self;
         if this.first {
             this.first = false;
-            // the draws the layer will make next, in its fixed order, on clones of the mirror
-            let mut s2 = this.mirror.lock().unwrap().clone();
-            let x1: f64 = s2.random();
-            let mut s1 = s2.clone();
-            let x2: f64 = s2.random();
-            let (g1, g2) = if this.hi > this.lo {
-                (s1.random_range(this.lo..=this.hi), s2.random_range(this.lo..=this.hi))
-            } else {
-                (this.lo, this.lo)
-            };
             // the exact thresholds of the configured rates travel with every first poll
             obs("eT", this.et);
             obs("lT", this.lt);
-            obs("r1", (x1 * P53 as f64) as u64);
-            obs("r2", (x2 * P53 as f64) as u64);
-            obs("g1", g1);
-            obs("g2", g2);
-            // decision i of the seed's stream for the i-th first poll, from the free-running oracle
-            let pred = decide_next(&mut this.oracle.borrow_mut(), this.et, this.lt, this.lo, this.hi);
-            log_raw(format!("#pred {} {}", this.c, pred));
+            // reference only: decision i of the old draw scheme for the i-th first poll on this service
+            let seed = this.seed;
+            let rf = decide_next(
+                this.oracle.borrow_mut().entry(this.svc).or_insert_with(|| StdRng::seed_from_u64(seed)),
+                this.et,
+                this.lt,
+                this.lo,
+                this.hi,
+            );
+            log_raw(format!("#ref {} {}", this.c, rf));
+            // the order of first polls per service
+            log_raw(format!("#svc {} {}", this.c, this.svc));
             let mut tw = this.twin.borrow_mut();
             if let Some(f) = tw.made.remove(&this.c) {
                 this.fb = f;
-            } else if let Some(i) = tw.waiting.iter().position(|(c, _, _)| *c == this.c) {
-                let (_, req, via) = tw.waiting.remove(i);
-                if let Some(mk) = tw.make.as_mut() {
-                    this.fb = mk(req, via);
+            } else if let Some(i) = tw.waiting.iter().position(|(c, _, _, _)| *c == this.c) {
+                let (_, svc, req, via) = tw.waiting.remove(i);
+                if let Some(mk) = tw.make.get_mut(&svc) {
+                    this.fb = mk(req, via, SVC0);
                 }
             }
         }
@@ -640,7 +782,7 @@ impl Drop for Pair {
         if self.first {
             // never polled: the twin has no `call()` to make for it any more
             if let Ok(mut tw) = self.twin.try_borrow_mut() {
-                tw.waiting.retain(|(c, _, _)| *c != self.c);
+                tw.waiting.retain(|(c, _, _, _)| *c != self.c);
                 tw.made.remove(&self.c);
             }
         }
@@ -692,6 +834,8 @@ struct Stress {
     /// what the configuration demands of EVERY call, if anything: error rate 1 => `Some(Dec::Error)`,
     /// both rates 0 => `Some(Dec::Pass)`
     every: Option<Dec>,
+    /// the wrapped (counting) service
+    inner: Counting,
 }
 struct StressOut {
     per_thread: Vec<ThreadOut>,
@@ -699,11 +843,13 @@ struct StressOut {
     aborted: bool,
 }
 
-impl Consumer<StressOut> for Stress {
-    fn take<Sv>(self, svc: Sv, _layer: Box<dyn Any>) -> StressOut
+impl Consumer<Counting, StressOut> for Stress {
+    fn take<L>(self, layer: L) -> StressOut
     where
-        Sv: Service<Req, Response = Resp, Error = IErr, Future = Fut> + Clone + Send + 'static,
+        L: Layer<Counting> + Clone + 'static,
+        L::Service: Service<Req, Response = Resp, Error = IErr, Future = Fut> + Clone + Send + 'static,
     {
+        let svc = layer.layer(self.inner.clone());
         let n = self.threads;
         let every = self.every;
         // start line: every thread reports ready and spins until `go`; `stop` = the run is aborted because a
@@ -823,10 +969,12 @@ impl Adapter {
     ///     that request's error, inner service not called; pass => inner called once; delay => pending);
     ///  2. error rate 1: every call fails and the inner service is never called; rates 0/0: every
     ///     call passes (special cases of 3, stated separately);
-    ///  3. seeded determinism under any thread interleaving: each request consumes exactly its own
-    ///     rolls, atomically (the generator's mutex), so the MULTISET of the decisions of the K calls
-    ///     is the multiset of the first K decisions of the seed's stream (computed here sequentially
-    ///     with the oracle generator).
+    ///  3. seeded determinism under any thread interleaving: the decisions are a function of the seed and of the
+    ///     order in which the requests take their decision (the generator's mutex), so the MULTISET of the
+    ///     decisions of the K calls is the multiset of the decisions of K calls made ONE AFTER THE OTHER on an
+    ///     equally configured and seeded service — which is obtained by doing just that: a second service, built
+    ///     independently through the same builder path, serves K calls on one thread. No reference to what the
+    ///     decision function is.
     /// Nondeterministic by nature (real scheduling): a clean run proves nothing, a failing run is a
     /// concrete counter-example and is reported in full (`#stress-fail`).
     fn stress(&mut self, kv: &Kv) {
@@ -835,7 +983,7 @@ impl Adapter {
         let calls = kv.u64("calls", 1000).min(50_000_000) as usize;
         let (et, lt, lo, hi) = (self.p.et(), self.p.lt(), self.p.min_ms(), self.p.max_ms());
         let inner_calls = Arc::new(AtomicU64::new(0));
-        let hooks = Hooks {
+        let hooks = || Hooks {
             e: Box::new(|| TL_DECS.with(|d| d.borrow_mut().push(Dec::Error))),
             l: Box::new(|d| TL_DECS.with(|v| v.borrow_mut().push(Dec::Lat(d.as_millis() as u64)))),
             p: Box::new(|| TL_DECS.with(|d| d.borrow_mut().push(Dec::Pass))),
@@ -848,9 +996,11 @@ impl Adapter {
             None
         };
         let t0 = wall_us();
-        let out = build(Counting(inner_calls.clone()), &self.p, hooks, Stress { threads, calls, every });
+        let out = build(&self.p, hooks(), Stress { threads, calls, every, inner: Counting(inner_calls.clone()) });
+        // the same number of calls one after the other, on one thread, on a service built independently
+        let seq = build(&self.p, hooks(), Stress { threads: 1, calls, every: None, inner: Counting(Arc::new(AtomicU64::new(0))) });
         let wall = wall_us().saturating_sub(t0);
-        if out.aborted {
+        if out.aborted || seq.aborted {
             log_raw("#harness-panic stress: could not create the threads / their runtimes".into());
             return;
         }
@@ -876,12 +1026,22 @@ impl Adapter {
             }
         }
         let performed = failed + returned + pending;
-        // the first `performed` decisions of the seed's stream, sequentially
+        // the decisions of the sequential run
         let mut want: BTreeMap<Dec, u64> = BTreeMap::new();
+        let mut seq_decided = 0u64;
+        for t in &seq.per_thread {
+            seq_decided += t.decs.len() as u64;
+            for d in &t.decs {
+                *want.entry(*d).or_insert(0) += 1;
+            }
+        }
+        // reference only: the first `performed` decisions of the old draw scheme
+        let mut refm: BTreeMap<Dec, u64> = BTreeMap::new();
         let mut o = StdRng::seed_from_u64(self.p.seed);
         for _ in 0..performed {
-            *want.entry(decide_next(&mut o, et, lt, lo, hi)).or_insert(0) += 1;
+            *refm.entry(decide_next(&mut o, et, lt, lo, hi)).or_insert(0) += 1;
         }
+        let ref_same = refm == seen;
         let count = |m: &BTreeMap<Dec, u64>, f: fn(&Dec) -> bool| -> u64 { m.iter().filter(|(d, _)| f(d)).map(|(_, n)| *n).sum() };
         let (ne, nl, np) = (
             count(&seen, |d| matches!(d, Dec::Error)),
@@ -924,13 +1084,15 @@ impl Adapter {
                 }
             }
             fails.push(format!(
-                "the multiset of the {} decisions differs from that of the first {} decisions of the seed's stream ({})",
+                "same seed, same number of requests, but the multiset of the {} decisions taken when {} threads make the calls on clones of one service differs from that of the {} decisions taken when one thread makes {} calls one after the other on an equally configured and seeded service ({}): the decisions depend on more than the seed and the order of the requests",
                 decided,
-                performed,
+                threads,
+                seq_decided,
+                calls,
                 diff.join("; ")
             ));
         }
-        log_raw(format!("#stress {} performed={} wall_us={} fails={}", cfg, performed, wall, fails.len()));
+        log_raw(format!("#stress {} performed={} wall_us={} fails={} ref={}", cfg, performed, wall, fails.len(), if ref_same { "same" } else { "differs" }));
         if !fails.is_empty() {
             log_raw(format!("#stress-fail {} :: {} :: {}", cfg, fails.join(" | "), totals));
         }
@@ -951,9 +1113,10 @@ impl Mw for Adapter {
         let req = Req::new(c, kv);
         let via = Via::parse(kv.get("via"), if self.p.handles == 0 { Via::Clone } else { Via::Template });
         let tvia = Via::parse(kv.get("tvia"), Via::Template);
+        let sel = Sel { svc: kv.u64("svc", 0).min(63) as usize, lclone: kv.u64("lclone", 0) == 1 };
         RDY_LAYER.with(|x| x.borrow_mut().clear());
         RDY_INNER.with(|x| x.borrow_mut().clear());
-        let made = make_a(req.clone(), via);
+        let made = make_a(req.clone(), via, sel);
         log_raw(format!(
             "#rdy {} via={} layer={} inner={}",
             c,
@@ -966,9 +1129,19 @@ impl Mw for Adapter {
             return None;
         };
         log_raw(format!("#tvia {} {}", c, tvia.name()));
-        self.twin.borrow_mut().waiting.push((c, req, tvia));
+        {
+            // the twin of this service: a layer of its own, built now if this is the first request on the service
+            let mut tw = self.twin.borrow_mut();
+            if !tw.make.contains_key(&sel.svc) {
+                if let Some(mk) = tw.new_twin.as_mut().map(|f| f()) {
+                    tw.make.insert(sel.svc, mk);
+                }
+            }
+            tw.waiting.push((c, sel.svc, req, tvia));
+        }
         Some(Box::pin(Pair {
             c,
+            svc: sel.svc,
             fa,
             twin: self.twin.clone(),
             fb: None,
@@ -977,8 +1150,8 @@ impl Mw for Adapter {
             reported: false,
             a_calls: self.a_calls.clone(),
             b_calls: self.b_calls.clone(),
-            mirror: self.mirror.clone(),
             oracle: self.oracle.clone(),
+            seed: self.p.seed,
             cur: self.cur.clone(),
             cur_b: self.cur_b.clone(),
             lo: self.p.min_ms(),
@@ -1005,18 +1178,20 @@ impl Mw for Adapter {
         }
         if what == "dropsvc" {
             log_raw(format!("#dropsvc {}", now_ms()));
-            // instance A: the pristine service, the kept clones and the layer all live in the closure
+            // instance A: the layer value, its clones, and of every service made from it the pristine handle and the
+            // kept clones all live in the closure
             self.make_a = None;
-            // the twin makes the `call()`s it still owes (requests that arrived and were not polled yet), in
-            // arrival order, then drops its only handle and its layer
+            // the twins make the `call()`s they still owe (requests that arrived and were not polled yet), in
+            // arrival order, then drop their only handles and their layers
             let mut tw = self.twin.borrow_mut();
             let waiting = std::mem::take(&mut tw.waiting);
-            if let Some(mut mk) = tw.make.take() {
-                for (c, req, via) in waiting {
-                    let f = mk(req, via);
-                    tw.made.insert(c, f);
-                }
+            let mut make = std::mem::take(&mut tw.make);
+            tw.new_twin = None;
+            for (c, svc, req, via) in waiting {
+                let f = make.get_mut(&svc).and_then(|mk| mk(req, via, SVC0));
+                tw.made.insert(c, f);
             }
+            drop(make);
         }
     }
 }
